@@ -32,6 +32,11 @@ def side_of_name(name):
         return 'L'
     if first in R_PARTS or first.startswith('rtable') or first.startswith('rtokens'):
         return 'R'
+    # spelled-out leading markers (`left_key_index`); the bare words stay neutral (array positions in _partition)
+    if len(parts) > 1 and first == 'left' and 'right' not in parts:
+        return 'L'
+    if len(parts) > 1 and first == 'right' and 'left' not in parts:
+        return 'R'
     return None
 
 
